@@ -146,7 +146,7 @@ impl<R: Round> Context<R> {
         // at most double the precision is required to get a correct result
         // shrink the input operands if necessary
         let max_precision = if self.is_limited() {
-            self.precision * 2
+            self.precision.saturating_mul(2)
         } else {
             usize::MAX
         };
@@ -195,7 +195,7 @@ impl<R: Round> Context<R> {
 
         // shrink the input operands if necessary
         let max_precision = if self.is_limited() {
-            self.precision * 2
+            self.precision.saturating_mul(2)
         } else {
             usize::MAX
         };
@@ -233,7 +233,7 @@ impl<R: Round> Context<R> {
 
         // shrink the input operands if necessary
         let max_precision = if self.is_limited() {
-            self.precision * 3
+            self.precision.saturating_mul(3)
         } else {
             usize::MAX
         };
